@@ -30,6 +30,7 @@ type PropSpec struct {
 	Decided   []string
 	OutOfReach []string
 	Bounded   []string
+	Standin   []string // classes of the bounded formatter stand-in owned by this property
 }
 
 type KnownFinding struct {
@@ -94,6 +95,18 @@ func propSpecs() map[string]*PropSpec {
 			Own:     func(o *Obligation) bool { return strings.Contains(o.Name, "C16:") },
 			Decided: []string{"format: exactly one call of the formatter on the given text; on a formatter error exit status 1 and no file-system effect; with -f exactly one WriteFile(file, result); without -f exactly one stdout line result+\"\\n\" and no file-system effect", "C export: formatter called on GoString(dsl), returns CString(result) or CString(\"Error:\"+err)", "compile: ParseFile called once on the input; see evidence for the per-target clauses"},
 			OutOfReach: []string{"cobra flag parsing and command dispatch, cgo string conversion (trusted library contracts)"}},
+		"C09": {ID: "C09", Kinds: []string{"POST", "PRE", "SAFE"}, FuncMatch: regexp.MustCompile(`parser\.FormatPacketDsl$|cmd\.(init\$2|FormatPacketDslExport)$`),
+			Own:     func(o *Obligation) bool { return strings.Contains(o.Name, "C09:") || strings.Contains(o.Name, "format-error-exit") },
+			Standin: []string{"panic", "reparse", "tokens", "comments", "error-path", "outputs"},
+			Decided: []string{"on a syntax error FormatPacketDsl returns its input unchanged together with an error (postcondition, all inputs)", "format -f / -d: on a formatter error exit status 1 and no file-system effect (exits clause, all inputs)"},
+			Bounded: []string{"BOUNDED (not counted as proved): on an enumerated corpus of grammar-derived sentences with comments at token boundaries, key lists of length 1..16 and fault templates, the real formatter's result re-parses, keeps the default-channel token sequence (optional ',' ';' ignored) and the comment sequence, and where the input compiles the formatted text compiles to byte-identical file sets for all six targets"},
+			OutOfReach: []string{"token / comment preservation and output equality for all inputs (COVER obligations are not built in this revision)"}},
+		"C10": {ID: "C10", Kinds: []string{"POST"}, FuncMatch: regexp.MustCompile(`parser\.FormatPacketDsl$`),
+			Own:     func(o *Obligation) bool { return strings.Contains(o.Name, "C09:error") },
+			Standin: []string{"idempotent", "relayout"},
+			Decided: []string{"(supporting) error path of FormatPacketDsl"},
+			Bounded: []string{"BOUNDED (not counted as proved): on the same enumerated corpus format(format(x)) == format(x), and two token-aware whitespace re-layouts of x (every gap one blank / one line break; gaps widened with tabs, blanks and blank lines; comments stay on the line of the same token) format to the same text"},
+			OutOfReach: []string{"idempotence and layout-independence for all inputs: they need the lexer's behaviour on the emitted text, which no contract on the Go functions can state"}},
 		"C13": {ID: "C13", Kinds: []string{"DET"}, FuncMatch: all,
 			Own:     func(o *Obligation) bool { return o.Kind == "DET" },
 			Decided: []string{"no call to an impure source (time, rand, environment) in any function of model, parser, cmd", "every effect of a `range` over a map that is visible outside the iteration commutes with the same effect for any other key (map updates: distinct keys or equal values; builder appends: equal text; stores: equal values; file-system effects: distinct paths; loop-carried variables: commutative update, or the collect-keys-then-sort idiom)"},
@@ -329,6 +342,33 @@ func report(e *Engine, spec *PropSpec, r *propResult, tier string, seed int, wal
 		lines = append(lines, fmt.Sprintf("VIOLATION property=%s replay=%s no-failing-input-found", spec.ID, filepath.Join(verifRoot, "replays", spec.ID, "no-obligations.json")))
 		writeJSON(filepath.Join(verifRoot, "replays", spec.ID, "no-obligations.json"), map[string]interface{}{"property": spec.ID, "reason": "zero obligations generated"})
 	}
+	var standinInfo map[string]interface{}
+	if len(spec.Standin) > 0 {
+		if err := runFormatterStandin(e, seed); err != nil {
+			violations++
+			p := filepath.Join(verifRoot, "replays", spec.ID, "standin-harness.json")
+			writeJSON(p, map[string]interface{}{"property": spec.ID, "obligation": "BOUNDED:" + spec.ID + ":harness", "verifier_output": err.Error()})
+			lines = append(lines, fmt.Sprintf("VIOLATION property=%s replay=%s no-failing-input-found", spec.ID, p))
+		} else {
+			names, detail := standinFailures(spec.ID, spec.Standin)
+			nKnown := 0
+			for _, n := range names {
+				o := detail[n]
+				if k, ok := known[n]; ok {
+					nKnown++
+					knownHit = append(knownHit, n)
+					lines = append(lines, fmt.Sprintf("KNOWN-FINDING: property=%s %s %s", spec.ID, n, k.What))
+					continue
+				}
+				violations++
+				p := filepath.Join(verifRoot, "replays", spec.ID, sanitize(n)+".reproduced.json")
+				writeJSON(p, map[string]interface{}{"property": spec.ID, "obligation": n, "class": o.Class, "input": standinInputs[o.File], "observed": o.Note, "entry": "parser.FormatPacketDsl (real code, go test -overlay)"})
+				lines = append(lines, fmt.Sprintf("VIOLATION property=%s replay=%s", spec.ID, p))
+			}
+			standinInfo = map[string]interface{}{"corpus_inputs": standinCount, "formatted": len(standinOut["formatted"]), "syntax_errors": len(standinOut["syntax-error"]), "failing_pairs": len(names), "known": nKnown, "classes": spec.Standin,
+				"bound": "corpus enumerated by goverif/standin.go from grammar/PacketDsl.g4 (every alternative / optional element toggled, <=3 rounds of choice-point discovery), key lists of length 1..16, comments at <=4 token boundaries per sentence, 2 whitespace re-layouts per input"}
+		}
+	}
 	var vanished []string
 	for n, st := range ledger.Obligations {
 		if _, ok := newLedger.Obligations[n]; !ok && st == "proved" {
@@ -361,7 +401,7 @@ func report(e *Engine, spec *PropSpec, r *propResult, tier string, seed int, wal
 	}
 	level := "proof"
 	expl := fmt.Sprintf("contract-based deductive verification of the real Go code (go/ssa): %d obligations generated for %d functions, %d discharged (%v); %d open known findings, %d undecided (never counted as proved), %d vanished since the ledger.", len(r.owned), len(r.reports), discharged, byBackend, len(knownHit), len(undecided), len(vanished))
-	if discharged != len(r.owned) || len(outOfSubset) > 0 {
+	if discharged != len(r.owned) || len(outOfSubset) > 0 || len(spec.Standin) > 0 || len(spec.OutOfReach) > 0 && spec.ID != "C11" && spec.ID != "C14" {
 		level = "other"
 	}
 	cov := map[string]interface{}{
@@ -388,6 +428,7 @@ func report(e *Engine, spec *PropSpec, r *propResult, tier string, seed int, wal
 		"conjuncts_decided":        spec.Decided,
 		"conjuncts_out_of_reach":   spec.OutOfReach,
 		"bounded_standins":         spec.Bounded,
+		"bounded_standin_run":      standinInfo,
 		"contract_files":           e.contracts.files,
 		"grammar":                  e.tree.src,
 	}
